@@ -48,7 +48,7 @@ func nonNilFact(x ssa.Value) FactFn {
 }
 
 func checkC14(c *Ctx, r *Report) {
-	r.Explain = "Validation of everything a remote peer controls before it reaches an operation that can panic, allocate or index: (R1) the optional body of a wire message is dereferenced only where it was tested non-nil (or was built locally); (R2) a length taken from the wire reaches make() only with an upper bound (and a lower bound if signed); (R3) an index taken from the wire reaches the per-piece counters, a bitset mutator or a piece table only with both bounds, or comes from iterating a bitfield whose length was compared with the torrent's piece count; (R4) a bitfield received from a peer is decoded only after its declared length was checked against the bytes received; (R5) unknown message types are rejected; (R6) both torrent implementations bound the piece index before using it."
+	r.Explain = "Validation of everything a remote peer controls before it reaches an operation that can panic, allocate or index: (R1) the optional body of a wire message is dereferenced only where it was tested non-nil (or was built locally); (R2) a length taken from the wire reaches make() only with an upper bound (and a lower bound if signed); (R3) an index taken from the wire reaches the per-piece counters, a bitset mutator or a piece table only with both bounds, or comes from iterating a bitfield whose length was compared with the torrent's piece count; (R4) a bitfield received from a peer is decoded only after its declared length was checked against the bytes received; (R7) and leaves its decoder only where no bit at or beyond the declared length is set (the library keeps the whole last word, so R3's 'length equals piece count' bounds the set bits only with this); (R5) unknown message types are rejected; (R6) both torrent implementations bound the piece index before using it."
 	r.NotDecided = "Resource exhaustion by many individually valid messages; panics inside third-party code outside the effect table (bitset.UnmarshalBinary allocates the declared length before reading; protobuf decoding is bounded by the frame cap)."
 	pkgs := []string{pkgConn, pkgDispatch}
 
@@ -183,6 +183,7 @@ func checkC14(c *Ctx, r *Report) {
 
 	// R4 bitfield decoding
 	r4 := r.Rule("R4", "E-TAINT(bytes)", "BitSet.UnmarshalBinary is applied to bytes received from a peer only where the declared bit count was compared with the number of bytes that follow", 1)
+	r7 := r.Rule("R7", "E-GUARD", "a function that decodes a bitset from received bytes returns it only on the not-found side of NextSet(Len()) on that bitset (no set bit at or beyond the declared length)", 1)
 	for _, pkg := range pkgs {
 		for _, fn := range c.FuncsIn(pkg) {
 			if c.isFixture(fn) {
@@ -237,6 +238,36 @@ func checkC14(c *Ctx, r *Report) {
 					return tern(over, -1, 1)
 				})
 				r.Check(ok, r4, fn, "UnmarshalBinary", cs.Instr, "declared length checked against received bytes", "a bitfield received from a peer is decoded without checking its declared bit count: the decoder allocates that many bits before reading (memory exhaustion from a 16-byte message)")
+				// R7: the decoder keeps whatever is in the last word, so "Len() == piece
+				// count" (R3's iteration clause) bounds the set bits only if the decoded
+				// set leaves the function where NextSet(Len()) found nothing.
+				recv := cs.Instr.Common().Args[0]
+				nret := 0
+				for _, ret := range returnsOf(fn) {
+					if classifyReturn(ret) == RetFailure {
+						continue
+					}
+					nret++
+					clean := guardedBy(ret, func(cond ssa.Value, val bool) int {
+						ex, isE := cond.(*ssa.Extract)
+						if !isE || ex.Index != 1 {
+							return 0
+						}
+						ns, isC := ex.Tuple.(*ssa.Call)
+						if !isC || calleeName(ns.Common()) != "(*github.com/willf/bitset.BitSet).NextSet" || ns.Call.Args[0] != recv {
+							return 0
+						}
+						ln, isL := ns.Call.Args[1].(*ssa.Call)
+						if !isL || calleeName(ln.Common()) != "(*github.com/willf/bitset.BitSet).Len" || ln.Call.Args[0] != recv {
+							return 0
+						}
+						return tern(val, -1, 1)
+					})
+					r.Check(clean, r7, fn, "no bit beyond the declared length", ret, "returned only where NextSet(Len()) found no bit", "a bitfield decoded from a peer's bytes is accepted although bits beyond its declared length may be set (the decoder keeps the whole last word): consumers index per-piece tables with every set bit after comparing only Len() with the piece count")
+				}
+				if nret == 0 {
+					r.Undecided(r7, fn, "decoder returns", cs.Instr, "no success return found in the decoding function")
+				}
 			}
 		}
 	}
@@ -264,6 +295,32 @@ func checkC14(c *Ctx, r *Report) {
 			}
 		}
 		r.Check(ok, r5, hs, "type checked", nil, "success only for BITFIELD messages", "the handshake decoder accepts messages of another type")
+	}
+
+	// R8: the two handshake fields that name the torrent are cross-checked. The
+	// pending slot is keyed by the info hash the peer sent; the conn is keyed by the
+	// info hash of the torrent its digest names. Unless they are equal the slot is
+	// never released (MovePendingToActive misses it).
+	r8 := r.Rule("R8", "E-GUARD", "Handshaker.Establish(pc, info, …) is called only on the equal side of a comparison of info.InfoHash() with pc.InfoHash()", 1)
+	for _, cs := range c.CallsTo("(*" + pkgConn + ".Handshaker).Establish") {
+		fn := cs.Caller
+		if c.isFixture(fn) {
+			continue
+		}
+		a := cs.Instr.Common().Args
+		pcv, infov := a[1], a[2]
+		ok := guardedBy(cs.Instr, eqFact(func(b *ssa.BinOp) bool {
+			ih := func(v ssa.Value) bool {
+				cl, isC := v.(*ssa.Call)
+				return isC && calleeName(cl.Common()) == "(*lib/torrent/storage.TorrentInfo).InfoHash" && cl.Call.Args[0] == infov
+			}
+			ph := func(v ssa.Value) bool {
+				cl, isC := v.(*ssa.Call)
+				return isC && calleeName(cl.Common()) == "(*"+pkgConn+".PendingConn).InfoHash" && cl.Call.Args[0] == pcv
+			}
+			return ih(b.X) && ph(b.Y) || ih(b.Y) && ph(b.X)
+		}, true))
+		r.Check(ok, r8, fn, "handshake info hash matches its digest", cs.Instr, "info.InfoHash() == pc.InfoHash()", "an incoming handshake is established although the info hash the peer sent was not compared with the info hash of the torrent its digest names: the pending slot reserved under the peer's value is never released, so a remote peer can use up another torrent's connection capacity")
 	}
 
 	// R6 torrents bound the index
